@@ -149,3 +149,31 @@ func ZzC16Wake() {
 	zzAssert(woke2, "a consumer waiting on an empty queue is woken by a close")
 	zzCover("done", true)
 }
+
+// C16 (Reset): from any state - including a closed ring that accepted late
+// pushes after Close (Push does not look at the closed flag) - Reset gives an
+// empty, open queue: every slot free, a full capacity of pushes is accepted and
+// the next one refused, and Pull hands out exactly those items in order.
+func ZzC16Reset() {
+	r, m := zzState()
+	if m.closed {
+		late := zzConcretize(zzIntIn("latePushes", 0, m.size))
+		for i := 0; i < late; i++ {
+			zzAssert(r.Push(zzInt("late")), "push after close is accepted while there is room")
+		}
+	}
+	r.Reset()
+	zzAssert(!zzLockHeld(&r.mutex), "reset: mutex released on return")
+	for i := 0; i < m.size; i++ {
+		zzAssert(r.Push(1000+i), "after reset: the queue accepts its full capacity")
+	}
+	zzAssert(!r.Push(-1), "after reset: refused exactly at capacity")
+	for i := 0; i < m.size; i++ {
+		v, ok := r.Pull()
+		zzAssert(ok, "after reset: pull succeeds on a non-empty open queue")
+		vi, isInt := v.(int)
+		zzAssert(isInt && vi == 1000+i, "after reset: items come out in acceptance order, nothing stale")
+	}
+	zzCover("was closed", m.closed)
+	zzCover("was open", !m.closed)
+}
